@@ -360,4 +360,11 @@ def rule_characters(ctx):
         ctx.res.ok("O3.5", "validate_characters has no break/return/continue in its character loop", True)
 
 
-RULES = [rule_template_integrity, rule_validated, rule_guard_state, rule_characters]
+def rule_ods_cell_texts(ctx):
+    """O3.6: ODS cells reach the length and character checks with every character they hold (blanks stored as text:s, tabs, line breaks, spans) (C15's table)."""
+    from .c15 import rule_cell_texts
+
+    rule_cell_texts(ctx, "O3.6")
+
+
+RULES = [rule_template_integrity, rule_validated, rule_guard_state, rule_characters, rule_ods_cell_texts]
